@@ -179,6 +179,8 @@ def native_py(T, v):
     if k == 'choice':
         a = v['alt'] - 1
         return {T['alts'][a]['name']: native_py(T['alts'][a]['t'], v['v'])}
+    if k == 'null':
+        return None                      # the Python image of NULL (what the native encoder produces)
     return scalar_py(T, v)
 
 
